@@ -26,6 +26,7 @@ import (
 
 	"github.com/internetarchive/Zeno/internal/pkg/controler/pause"
 	"github.com/internetarchive/Zeno/internal/pkg/stats"
+	"github.com/internetarchive/Zeno/internal/pkg/verifhook"
 	"github.com/internetarchive/Zeno/internal/pkg/veriflib"
 	"github.com/internetarchive/Zeno/pkg/models"
 	"pgregory.net/rapid"
@@ -61,13 +62,49 @@ func runCase(c Case) (res simResult) {
 	say := func(f string, a ...any) {
 		res.Events = append(res.Events, fmt.Sprintf("t=%.1fs ", time.Since(t0).Seconds())+fmt.Sprintf(f, a...))
 	}
-	// whatever the verdict, leave the bubble clean: resume (releases parked workers), stop, let timers run out
+	// waits up to a virtual hour for done
+	waitDone := func(done chan struct{}) bool {
+		for i := 0; i < 61; i++ {
+			synctest.Wait()
+			select {
+			case <-done:
+				return true
+			default:
+			}
+			time.Sleep(time.Minute)
+		}
+		return false
+	}
+	// true when f returned within a virtual hour
+	var lastDone chan struct{}
+	mustReturn := func(f func()) bool {
+		done := make(chan struct{})
+		lastDone = done
+		go func() { f(); close(done) }()
+		return waitDone(done)
+	}
+	// whatever the verdict, leave the bubble clean: resume (releases parked workers), stop, let timers run out.
+	// When the pipeline cannot be stopped any more (a worker is stuck for ever) the bubble can never end: the verdict is
+	// written out and the shard process exits (no shrinking for this case).
 	defer func() {
+		verifhook.SetHandler(nil)
 		if !stopped {
 			if pause.IsPaused() {
 				go pause.Resume()
 			}
-			p.Stop()
+			if !mustReturn(func() { p.Stop() }) {
+				if res.Viol == "" {
+					res.Viol, res.Facet = "the pipeline could not be stopped at the end of the case: Stop() did not return within a virtual hour", "C03/sim"
+				} else {
+					res.Viol += " (and afterwards the pipeline could not be stopped: a stage worker is stuck for ever)"
+				}
+				res.Fetches = p.Net.Log()
+				veriflib.WriteFailure(res.Facet[:3], res.Facet, c, res, res.Viol)
+				veriflib.JournalDone()
+				veriflib.Flush()
+				fmt.Fprintf(os.Stderr, "verifsim: %s\n", res.Viol)
+				os.Exit(3)
+			}
 		}
 		time.Sleep(5 * time.Second)
 		synctest.Wait()
@@ -87,8 +124,28 @@ func runCase(c Case) (res simResult) {
 
 	// ---- control events are triggered by the k-th request arriving at the network
 	ctlAt := map[int64]Ctl{}
+	var hookCtl []Ctl
 	for _, ct := range c.Ctl {
-		ctlAt[int64(ct.At)] = ct
+		if strings.HasPrefix(ct.Kind, "hookpause") {
+			hookCtl = append(hookCtl, ct)
+		} else {
+			ctlAt[int64(ct.At)] = ct
+		}
+	}
+	hookTrig := make(chan Ctl, 8)
+	if len(hookCtl) > 0 {
+		// the pause is issued from inside the pipeline, by the goroutine that reaches the event point
+		verifhook.SetHandler(func(point string, n int64, _ string) {
+			for _, ct := range hookCtl {
+				if ct.Point == point && int64(ct.At) == n {
+					pause.Pause("verif")
+					select {
+					case hookTrig <- ct:
+					default:
+					}
+				}
+			}
+		})
 	}
 	var reqCount atomic.Int64
 	trig := make(chan Ctl)
@@ -112,27 +169,6 @@ func runCase(c Case) (res simResult) {
 			}
 		}
 	}
-	// waits up to a virtual hour for done
-	waitDone := func(done chan struct{}) bool {
-		for i := 0; i < 61; i++ {
-			synctest.Wait()
-			select {
-			case <-done:
-				return true
-			default:
-			}
-			time.Sleep(time.Minute)
-		}
-		return false
-	}
-	// true when f returned within a virtual hour
-	var lastDone chan struct{}
-	mustReturn := func(f func()) bool {
-		done := make(chan struct{})
-		lastDone = done
-		go func() { f(); close(done) }()
-		return waitDone(done)
-	}
 	hadPause, stopPaused, stopMid := false, false, false
 	handle := func(ct Ctl) (simResult, bool) {
 		// while one control action is being carried out, requests that would trigger another one are let through
@@ -151,11 +187,15 @@ func runCase(c Case) (res simResult) {
 			}
 		}()
 		switch ct.Kind {
-		case "pause-resume", "pause-stop":
+		case "pause-resume", "pause-stop", "hookpause-resume", "hookpause-stop":
 			hadPause = true
-			say("request #%d: pause", ct.At)
-			pause.Pause("verif")
-			rel <- struct{}{}
+			if strings.HasPrefix(ct.Kind, "hookpause") {
+				say("%s hit #%d: paused from inside the pipeline", ct.Point, ct.At)
+			} else {
+				say("request #%d: pause", ct.At)
+				pause.Pause("verif")
+				rel <- struct{}{}
+			}
 			drain()
 			nf, nfin := len(p.Net.Log()), len(p.Finishes())
 			time.Sleep(10 * time.Minute)
@@ -167,7 +207,7 @@ func runCase(c Case) (res simResult) {
 			if len(p.Finishes()) != nfin {
 				return fail("C14/pipeline", "a seed was reported finished while the pipeline was paused and drained"), true
 			}
-			if ct.Kind == "pause-stop" {
+			if strings.HasSuffix(ct.Kind, "pause-stop") {
 				stopPaused = true
 				say("stop while paused")
 				if !mustReturn(func() { p.Stop() }) {
@@ -243,6 +283,11 @@ func runCase(c Case) (res simResult) {
 		synctest.Wait()
 		select {
 		case ct := <-trig:
+			if r, bad := handle(ct); bad {
+				return r
+			}
+			continue
+		case ct := <-hookTrig:
 			if r, bad := handle(ct); bad {
 				return r
 			}
@@ -622,6 +667,10 @@ func genCase(t *rapid.T) (Case, map[string]bool) {
 	case 2:
 		a := rapid.IntRange(1, 6).Draw(t, "at")
 		c.Ctl = []Ctl{{At: a, Kind: "pause-resume"}, {At: a + rapid.IntRange(1, 6).Draw(t, "at2"), Kind: "pause-resume"}}
+	case 3:
+		pts := []string{"preprocessor.forward", "archiver.forward", "archiver.forward", "postprocessor.forward", "finisher.feedback", "finisher.beforeMarkFinished", "archiver.beforeDo"}
+		c.Ctl = []Ctl{{At: rapid.IntRange(1, 6).Draw(t, "hookn"), Point: pts[rapid.IntRange(0, len(pts)-1).Draw(t, "point")],
+			Kind: []string{"hookpause-resume", "hookpause-stop", "hookpause-stop"}[rapid.IntRange(0, 2).Draw(t, "hookkind")]}}
 	}
 	return c, feats
 }
